@@ -1,8 +1,10 @@
 CONSTANT MaxLen = 3
 CONSTANT Alphabet = {97,32,35,36,92,58,10,13,9,47}
 CONSTANT First = {97,32,35,36,92,58,10,13,9,47,256}
+CONSTANT Second = {97,32,35,36,92,58,10,13,9,47,256}
 CONSTANT Family = "all"
 CONSTANT PathLen = 2
+CONSTANT DepLen = 2
 INIT Init
 NEXT Next
 INVARIANT RoundTrip
